@@ -3,6 +3,7 @@ package main
 import (
 	"bufio"
 	"bytes"
+	"encoding/binary"
 	"encoding/json"
 	"flag"
 	"fmt"
@@ -18,6 +19,22 @@ import (
 )
 
 func gkvliteMagicEnd() []byte { return gkvlite.MagicEnd }
+
+// framedRecord is a root record in every respect but its payload, placed at file offset `at`.
+func framedRecord(at int64, payload []byte) []byte {
+	var b bytes.Buffer
+	b.Write(gkvlite.MagicBeg)
+	b.Write(gkvlite.MagicBeg)
+	total := uint32(2*len(gkvlite.MagicBeg) + 4 + 4 + len(payload) + 8 + 4 + 2*len(gkvlite.MagicEnd))
+	binary.Write(&b, binary.BigEndian, uint32(gkvlite.Version))
+	binary.Write(&b, binary.BigEndian, total)
+	b.Write(payload)
+	binary.Write(&b, binary.BigEndian, at)
+	binary.Write(&b, binary.BigEndian, total)
+	b.Write(gkvlite.MagicEnd)
+	b.Write(gkvlite.MagicEnd)
+	return b.Bytes()
+}
 
 func hexs(b []byte) string { return hex.EncodeToString(b) }
 
@@ -104,6 +121,12 @@ func cmdC03(args []string) {
 				rb16 := make([]byte, 16)
 				r.Read(rb16)
 				junks = append(junks, append(rb16, []byte(me+me)...))
+				// correctly FRAMED records (markers, version, both lengths, trailer offset naming the
+				// place they lie at) whose payload is not a root map: the scan has to pass over them
+				at := muts[k-1].Off + int64(len(root))
+				for _, pl := range []string{`{"a":{"o":1`, `[]`, ``, `{"a":5}`} {
+					junks = append(junks, framedRecord(at, []byte(pl)))
+				}
 				// VERBATIM copies of earlier, different root records: complete and self-consistent in
 				// every field except that their trailer offset names the place they came from
 				seen := 0
